@@ -214,15 +214,45 @@ func goTypeName(p *pkg, e ast.Expr) string {
 		if x.Len == nil {
 			return "[]" + goTypeName(p, x.Elt)
 		}
+		if n, ok := arrayLen(p, x.Len); ok && goTypeName(p, x.Elt) == "byte" {
+			return fmt.Sprintf("[%d]byte", n)
+		}
 	case *ast.Ellipsis:
 		return "[]" + goTypeName(p, x.Elt)
 	}
 	return "?"
 }
 
+// arrayLen evaluates the length of an array type: an integer literal or an integer constant of the package
+func arrayLen(p *pkg, e ast.Expr) (int, bool) {
+	switch x := e.(type) {
+	case *ast.BasicLit:
+		if n, err := strconv.Atoi(x.Value); err == nil {
+			return n, true
+		}
+	case *ast.Ident:
+		if ce := p.constExpr(x.Name); ce != nil {
+			return arrayLen(p, ce)
+		}
+	}
+	return 0, false
+}
+
+// arrayLenOf: N of a "[N]byte" Go type name, -1 otherwise
+func arrayLenOf(g string) int {
+	var n int
+	if _, err := fmt.Sscanf(g, "[%d]byte", &n); err == nil && strings.HasSuffix(g, "]byte") && !strings.HasPrefix(g, "[]") {
+		return n
+	}
+	return -1
+}
+
 func leanOfGoName(p *pkg, g string) (string, bool) {
 	if l, ok := typeTable[g]; ok {
 		return l, true
+	}
+	if arrayLenOf(g) >= 0 {
+		return "Bytes", true // a fixed-size byte array: a byte list whose length the translation keeps (copyInto, replicate)
 	}
 	switch g {
 	case "string":
@@ -519,6 +549,9 @@ func (f *fn) expr(e ast.Expr) ex {
 		case token.SUB:
 			return f.lift1(r, "(-%s)", r.t)
 		case token.AND:
+			if arrayLenOf(r.t.gon) >= 0 {
+				return r // &arr handed to a library function that reads the array
+			}
 			// &x: a non-nil pointer to (a copy of) the value — pointers to values are options here, nothing is mutated through them
 			return f.lift1(r, "(some %s)", ty{"(Option " + r.t.lean + ")", "*" + r.t.gon})
 		}
@@ -533,6 +566,9 @@ func (f *fn) expr(e ast.Expr) ex {
 		return impure("(idx "+a.val()+" "+i.val()+")", el)
 	case *ast.SliceExpr:
 		a := f.expr(x.X)
+		if arrayLenOf(a.t.gon) >= 0 && x.Low == nil && x.High == nil && !x.Slice3 {
+			return ex{a.code, a.pure, ty{"Bytes", "[]byte"}} // arr[:] — the whole array as a slice
+		}
 		if a.t.elem().lean == "" || x.Slice3 {
 			fail(x.Pos(), "slice of %s", a.t.lean)
 		}
@@ -651,8 +687,36 @@ func (f *fn) args(list []ast.Expr) (codes []string, pure bool, exs []ex) {
 	return
 }
 
+func calleeDecl(tg *target) *ast.FuncDecl {
+	p, err := loadPkg(tg.Dir)
+	if err != nil {
+		return nil
+	}
+	return p.funcDecl(tg.Recv, tg.Name)
+}
+
 func (f *fn) callTarget(tg *target, recv *ex, argList []ast.Expr, pos token.Pos) ex {
 	codes, pure, _ := f.args(argList)
+	// a nil-able slice handed on to a callee that tests it for nil itself: the option, not its value
+	if fd := calleeDecl(tg); fd != nil {
+		i := 0
+		for _, fl := range fd.Type.Params.List {
+			for _, n := range fl.Names {
+				if i < len(argList) {
+					for _, nn := range tg.Nilable {
+						if nn == n.Name {
+							if id, ok := argList[i].(*ast.Ident); ok {
+								if v, isVar := f.lookup(id.Name); isVar && strings.HasPrefix(v.t.gon, "nilable:") {
+									codes[i] = v.lean
+								}
+							}
+						}
+					}
+				}
+				i++
+			}
+		}
+	}
 	all := append([]string{}, tg.Uses...)
 	for _, u := range tg.Uses {
 		f.uses[u] = true
@@ -1229,6 +1293,18 @@ func (f *fn) stmt(o *w, st ast.Stmt) {
 			o.line("throw (.panic %q)", msg)
 			return
 		}
+		if ce, ok := s.X.(*ast.CallExpr); ok && calleeName(ce.Fun) == "copy" && len(ce.Args) == 2 {
+			// copy(arr[:], src): the first min(len) bytes of arr are replaced (the returned count is dropped by the statement)
+			if se, ok := ce.Args[0].(*ast.SliceExpr); ok && se.Low == nil && se.High == nil {
+				if id, ok := se.X.(*ast.Ident); ok {
+					if v, isVar := f.lookup(id.Name); isVar && arrayLenOf(v.t.gon) >= 0 {
+						src := f.expr(ce.Args[1])
+						o.line("%s := copyInto %s %s", v.lean, v.lean, src.val())
+						return
+					}
+				}
+			}
+		}
 		fail(s.Pos(), "expression statement")
 	case *ast.IncDecStmt:
 		r := f.expr(s.X)
@@ -1260,6 +1336,9 @@ func (f *fn) stmt(o *w, st ast.Stmt) {
 						fail(vs.Pos(), "type of var %s", n.Name)
 					}
 					zero := map[string]string{"Int": "(0 : Int)", "Bool": "false", "Bytes": "([] : Bytes)", "UInt8": "(0 : UInt8)"}[t.lean]
+					if n := arrayLenOf(t.gon); n >= 0 {
+						zero = fmt.Sprintf("(List.replicate %d (0 : UInt8))", n)
+					}
 					if zero == "" && strings.HasPrefix(t.lean, "(List ") {
 						zero = "([] : " + t.lean + ")" // a nil slice: empty (nil-ness is not modelled for locals)
 					}
@@ -1395,6 +1474,24 @@ func (f *fn) ifStmt(o *w, s *ast.IfStmt) {
 				}
 				o.line("%s", r.mon())
 				return
+			}
+		}
+		if as, ok := s.Init.(*ast.AssignStmt); ok && len(as.Lhs) == 2 && len(as.Rhs) == 1 && s.Else == nil && len(s.Body.List) == 1 {
+			l0, ok0 := as.Lhs[0].(*ast.Ident)
+			l1, ok1 := as.Lhs[1].(*ast.Ident)
+			ce, okc := as.Rhs[0].(*ast.CallExpr)
+			if ok0 && ok1 && okc && l0.Name == "_" && l1.Name == "err" && f.isErrNotNil(s.Cond) && f.returnsErr(s.Body.List[0]) &&
+				calleeName(ce.Fun) == "io.ReadFull" && len(ce.Args) == 2 && exprText(ce.Args[0]) == "rand.Reader" {
+				// the random source fills the array completely or the call fails: arr ← ext_randRead len(arr)
+				if se, ok := ce.Args[1].(*ast.SliceExpr); ok && se.Low == nil && se.High == nil {
+					if id, ok := se.X.(*ast.Ident); ok {
+						if v, isVar := f.lookup(id.Name); isVar && arrayLenOf(v.t.gon) >= 0 {
+							f.uses["ext_randRead"] = true
+							o.line("%s := (← (ext_randRead %d))", v.lean, arrayLenOf(v.t.gon))
+							return
+						}
+					}
+				}
 			}
 		}
 		f.stmt(o, s.Init)
